@@ -51,7 +51,7 @@ register(
     level="proof",
     streams=["derive", "arrival", "steps"],
     falsifier=fals_models.falsify_C12,
-    partial=["from_arrival_bound_dominates_partial / prefix_from_arrival_bound_partial need a sub-additive source (the claim is FALSE otherwise: counterexample_F8, known finding F8) and an arrival model outside the C11 findings; the doubling search for a covering horizon in the model must succeed (hypothesis hreach, decidable)",
+    partial=["from_arrival_bound_dominates_partial / prefix_from_arrival_bound_partial need a sub-additive source (the claim is FALSE otherwise: counterexample_F8, known finding F8) and an arrival model outside the C11 findings; the doubling search for a covering horizon in the model must succeed (hypothesis hreach, decidable; it follows from the plain size condition that the source admits up_to + 1 arrivals within 2^65 - 1 time units: from_arrival_bound_dominates_of_size)",
              "from_trace_bounds_all_windows needs a usable curve (some recorded span positive); an all-zero prefix makes number_arrivals divide by zero"],
     explanation="trace-inferred curve = minimum spans (loop invariant over the trace), hence respects the trace and bounds every window of every length; delta_min_iter is the exact dual of number_arrivals; curves and prefixes derived from sub-additive bounds dominate the source everywhere and coincide on the covered prefix.",
 )
